@@ -89,7 +89,7 @@ static void xe_special(const xv_req *r, xv_resp *o, xrl_error **e) {
 static const int xe_errnos[8] = { 0, ERANGE, ENOMEM, EDOM, 0, EINVAL, ENOENT, EINTR };
 
 static int xe_main(int argc, char **argv) {
-  FILE *f; long n, k; char *sbuf = NULL; long slen = 0; int noslot, direct;
+  FILE *f; long n, k; char *sbuf = NULL; long slen = 0; int noslot, direct, fpflags;
   xv_req *rq; xv_resp *rs;
   if (argc < 6) { fprintf(stderr, "usage: xrlmon exec req str resp msg\n"); return 2; }
   f = fopen(argv[2], "rb"); if (!f) { perror(argv[2]); return 2; }
@@ -104,14 +104,18 @@ static int xe_main(int argc, char **argv) {
   rs = calloc(n + 1, sizeof(xv_resp));
   xv_fptrap_from_env();
   if (getenv("XV_SETLOCALE")) setlocale(LC_ALL, "");      /* run under the locale of the environment (the thread monitor's reference for its comma-locale runs) */
+#ifndef XV_NO_XRAYINIT
   if (getenv("XV_XRAYINIT")) XRayInit();
+#endif
   noslot = getenv("XV_NOSLOT") != NULL;
+  fpflags = getenv("XV_FPFLAGS") != NULL && !getenv("XV_FPTRAP");
   direct = getenv("XV_DIRECT") != NULL;     /* call everything WITHOUT an error slot (status is then always 0) */
   for (k = 0; k < n; k++) {
     xrl_error *e = NULL; const xv_req *r = &rq[k]; xv_resp *o = &rs[k];
     o->msg = -1;
     xv_poison_stack();
     errno = xe_errnos[k & 7];      /* whatever an earlier call of the process may have left behind: no query may depend on it */
+    if (fpflags) feraiseexcept(FE_DIVBYZERO | FE_INVALID | FE_OVERFLOW | FE_UNDERFLOW | FE_INEXACT);   /* XV_FPFLAGS: sticky status flags the HOST's own arithmetic left raised (no traps) */
     if (direct && r->fn >= 0 && r->fn < XV_NFN) { int st = 0; o->v[0] = XV_DIRECT[r->fn](r->i, r->d, xe_s(r->s), &st); o->status |= st; }    /* user-style direct calls */
     else if (r->fn >= 0 && r->fn < XV_NFN) o->v[0] = xv_call(r->fn, r->i, r->d, xe_s(r->s), noslot ? NULL : &e);
     else if (r->fn >= 1000 && r->fn < XS_END) xe_special(r, o, noslot ? NULL : &e);
